@@ -83,7 +83,7 @@ theorem C11_net_measure_decreases (n n' : Net) (h : Step n n') : measure n' < me
         omega
       | okLast hi hl => omega
       | fail hi =>
-        have hb : localM { b with idle := b.idle - 1, err := b.err + 1 } post.length = localM b post.length := by
+        have hb : localM { b with idle := b.idle - 1, err := b.err + 1, failed := true } post.length = localM b post.length := by
           simp only [localM]; omega
         omega
     | sendGiveUp pre a post hs hsend hc =>
